@@ -280,6 +280,10 @@ def run_prop(case, X, Y, X2=None):
         if usage == "by-name":
             # the propagator named, not instantiated
             res = cart_orbit(case["el"], epoch, klass.__name__).propagate(arg)
+            same = cart_orbit(case["el"], epoch, klass()).propagate(arg)
+            if not np.array_equal(np.asarray(res.base, float), np.asarray(same.base, float)):
+                raise Violation("propagator-by-name", f"propagator given as the name {klass.__name__!r} does not answer like an "
+                                                      f"instance of that class (epoch {epoch})")
         elif usage == "relabel-after-first-use":
             # the orbit is used once, then its epoch is replaced in place by the same instant under the label Y
             orb = cart_orbit(case["el"], date_of(us, "UTC"), klass())
@@ -755,6 +759,8 @@ def check_ccsds(case):
         dump(obj, buf, fmt=fmt, originator="VERIF")
         txt = buf.getvalue()
         loads = lambda text: load(io.StringIO(text))  # noqa: E731  (the file-object entry points)
+        if txt.lstrip().startswith("CCSDS_") != (fmt == "kvn") or ("VERIF" not in txt.split("META_START")[0].split("<body>")[0]):
+            raise Violation("ccsds-dump-arguments", f"dump(..., fmt={fmt!r}, originator='VERIF') wrote: {txt[:80]!r}...")
     else:
         txt = dumps(obj, fmt=fmt)
     m = re.search(r"TIME_SYSTEM\s*=\s*(\S+)|<TIME_SYSTEM>([^<]+)<", txt)
